@@ -45,15 +45,15 @@ Qed.
 (* C05: a record that claims protection (epoch <> 0) and does not authenticate has no effect:
    no output at all, and the state is unchanged except that it may sit in the bounded queue
    (only when it claims the next epoch, or keys are not installed yet). *)
-Theorem forged_inert W lease s w :
-  w_epoch w <> 0 -> w_ctype w <> ct_ccs -> w_auth w = None ->
+Theorem forged_inert_any_type W lease s w :
+  w_epoch w <> 0 -> w_auth w = None ->
   snd (recv W lease s w) = [] /\
   same_except_queue s (fst (recv W lease s w)) /\
   (r_queue (fst (recv W lease s w)) = r_queue s \/
    (r_queue (fst (recv W lease s w)) = r_queue s ++ [w] /\ (length (r_queue s) < max_queue)%nat /\
     lease = true /\ (w_epoch w = r_epoch s + 1 \/ r_init s = false))).
 Proof.
-  intros He Hct Ha. unfold recv.
+  intros He Ha. unfold recv.
   assert (Hrefl : same_except_queue s s) by (unfold same_except_queue; auto 10).
   destruct (r_closed s); [cbn; auto|].
   destruct (r_epoch s <? w_epoch w) eqn:E1.
@@ -67,9 +67,20 @@ Proof.
       destruct (enqueue_spec lease s w) as [Hs [Hq | (Hq & Hl & Hle)]]; split; auto.
       split; [exact Hs|]. right. repeat split; auto. right. now apply negb_true_iff in E4.
     + destruct (negb (len (r_cid s) =? 0) && negb (w_ctype w =? ct_cid)); [cbn; auto|].
-      destruct (w_ctype w =? ct_ccs) eqn:E5; [lia|].
+      destruct (w_ctype w =? ct_ccs) eqn:E5; [cbn; auto|].
       rewrite Ha. cbn; auto.
 Qed.
+
+(* the statement with the property's own exclusion of change_cipher_spec (kept under its old name:
+   since the ChangeCipherSpec repair the exclusion is no longer needed, see above) *)
+Theorem forged_inert W lease s w :
+  w_epoch w <> 0 -> w_ctype w <> ct_ccs -> w_auth w = None ->
+  snd (recv W lease s w) = [] /\
+  same_except_queue s (fst (recv W lease s w)) /\
+  (r_queue (fst (recv W lease s w)) = r_queue s \/
+   (r_queue (fst (recv W lease s w)) = r_queue s ++ [w] /\ (length (r_queue s) < max_queue)%nat /\
+    lease = true /\ (w_epoch w = r_epoch s + 1 \/ r_init s = false))).
+Proof. intros He _ Ha. now apply forged_inert_any_type. Qed.
 
 (* in an established connection a forged record of a current or past epoch changes nothing at all *)
 Corollary forged_inert_established W lease s w :
@@ -83,7 +94,7 @@ Proof.
   destruct (w_epoch w =? 0) eqn:E3; [lia|].
   rewrite Hi. cbn [negb].
   destruct (negb (len (r_cid s) =? 0) && negb (w_ctype w =? ct_cid)); [reflexivity|].
-  destruct (w_ctype w =? ct_ccs) eqn:E5; [lia|].
+  destruct (w_ctype w =? ct_ccs) eqn:E5; [reflexivity|].
   now rewrite Ha.
 Qed.
 
@@ -167,15 +178,7 @@ Proof.
   destruct (r_init s) eqn:Ei; cbn [negb].
   2:{ cbn. destruct Henq as (H1 & H2 & H3 & H4 & H5). dc_fin. }
   destruct (negb (len (r_cid s) =? 0) && negb (w_ctype w =? ct_cid)); [cbn; dc_fin|].
-  destruct (w_ctype w =? ct_ccs) eqn:Eccs.
-  { pose proof (dispatch_cases W lease s w (ccs_view (w_clear w))) as Hd.
-    destruct (dispatch W lease s w (ccs_view (w_clear w))) as [s' os].
-    destruct Hd as (H1 & H2 & H3 & H4 & [Hn | (Hm & Hw & Hdel)]).
-    - split; [exact H1|]. split; [exact H2|]. split; [congruence|]. split; [exact H4|]. left. exact Hn.
-    - split; [exact H1|]. split; [exact H2|]. split; [congruence|]. split; [exact H4|]. right.
-      split; [exact Hm|]. split; [reflexivity|]. split; [exact Hw|].
-      destruct Hdel as [Hdel | (p & Hdel & Hc & Hne)]; [left; exact Hdel|].
-      exfalso. destruct (w_clear w); discriminate Hc. }
+  destruct (w_ctype w =? ct_ccs) eqn:Eccs; [cbn; dc_fin|].
   destruct (w_auth w) as [c|] eqn:Ea; [|cbn; dc_fin].
   destruct (bytes_eqb (r_cid s) (if w_ctype w =? ct_cid then w_cid w else [])) eqn:Ecid; cbn [negb];
     [|cbn; dc_fin].
@@ -499,13 +502,13 @@ Qed.
    as [recv] does: every statement above about one arrival carries over *)
 Lemma recv_est_cases est W lease s w :
   recv_est est W lease s w = (s, []) \/ recv_est est W lease s w = recv W lease s w.
-Proof. unfold recv_est. destruct (est && unprotected_alert w); [now left | now right]. Qed.
+Proof. unfold recv_est. destruct (est && (unprotected_alert w || unprotected_ccs w)); [now left | now right]. Qed.
 
 Lemma recv_est_protected est W lease s w :
   w_epoch w <> 0 -> recv_est est W lease s w = recv W lease s w.
 Proof.
-  intros He. unfold recv_est, unprotected_alert.
-  destruct (w_epoch w =? 0) eqn:E; [lia|]. now rewrite Bool.andb_false_r.
+  intros He. unfold recv_est, unprotected_alert, unprotected_ccs.
+  destruct (w_epoch w =? 0) eqn:E; [lia|]. cbn [andb orb]. now rewrite Bool.andb_false_r.
 Qed.
 
 (* once the handshake is complete an unprotected alert changes nothing: no close, no reply, no
@@ -513,6 +516,11 @@ Qed.
 Theorem unprotected_alert_inert_established W lease s w :
   unprotected_alert w = true -> recv_est true W lease s w = (s, []).
 Proof. intros H. unfold recv_est. now rewrite H. Qed.
+
+(* ... and so does an unprotected ChangeCipherSpec: the epoch and the replay windows stay *)
+Theorem unprotected_ccs_inert_established W lease s w :
+  unprotected_ccs w = true -> recv_est true W lease s w = (s, []).
+Proof. intros H. unfold recv_est. rewrite H. now rewrite Bool.orb_true_r. Qed.
 
 Corollary forged_inert_est est W lease s w :
   w_epoch w <> 0 -> w_ctype w <> ct_ccs -> w_auth w = None ->
